@@ -810,6 +810,7 @@ class FileGen(Gen):
     max_handles = 8
     write_games = ("osu",)
     read_games = ("osu",)
+    reread_prop = None
 
     def setup(self):
         self.io_r = self.s.streams["io"]
@@ -841,6 +842,9 @@ class FileGen(Gen):
         lay = self.layout_for(game)
         if lay is not None:
             op["layout"] = lay
+        fs = self.w.fs
+        if self.reread_prop and (fs is None or path not in fs.installed):
+            op["prop"] = self.reread_prop  # reading back what the library wrote is the writer property's clause
         if not faults:
             op["io"]["fault"] = None
         return op
@@ -1015,4 +1019,124 @@ class GenC06(FileGen):
         return op
 
 
-SCENARIOS = {"C01": GenC01, "C06": GenC06, "C16": GenC16, "C14": GenC14, "C12": GenC12, "C08": GenC08, "C13": GenC13, "C15": GenC15}
+class GenC02(FileGen):
+    game = "sm"
+    write_games = ()
+    read_games = ("sm",)
+    table = dict(install_read=20, reread=4, mapset_get_map=1, map_deepcopy=1)
+
+    def gen_doc(self, game):
+        from .gen_files import gen_sm_doc, gen_sm_fmt
+
+        return gen_sm_doc(self.d, 4 if self.tier == "quick" else 6), gen_sm_fmt(self.d, self.s.knobs)
+
+
+class GridMixin:
+    """Charts generated in beat space so that every position is representable on the snap grid."""
+
+    def grid_chart(self, game, keys, tl, n_measures, exact, lcm_cap=None):
+        from .gen_files import gen_grid_objects
+        from fractions import Fraction
+
+        slots = fields.GAMES[game]
+        kinds = ["hits", "holds"]
+        if game == "sm":
+            kinds += [k for k in ("rolls", "mines", "lifts", "fakes", "keysounds") if self.d.random() < 0.3]
+        objs = gen_grid_objects(self.d, tl, keys, n_measures, self.hi, kinds, min_gap=Fraction(0) if exact else Fraction(1, 48), lcm_cap=lcm_cap)
+        if not any(objs.values()):
+            objs["hits"].append(dict(offset=float(tl[0][2]), column=0))
+        lists = {}
+        for k, rows in objs.items():
+            full = []
+            for row in rows:
+                base = gen_row(self.d, slots[k], keys)
+                base.update(row)
+                full.append(base)
+            if self.d.random() < 0.4:
+                self.d.shuffle(full)
+            lists[k] = full
+        bp = []
+        for b, v, ms in tl:
+            base = gen_row(self.d, slots["bpms"], keys)
+            base.update(offset=float(ms), bpm=float(v), metronome=4.0 if "metronome" in base else 4)
+            bp.append(base)
+        lists["bpms"] = bp
+        if "svs" in slots:
+            lists["svs"] = []
+        return lists
+
+    def grid_source(self, game, t0=0.0, exact=None, lcm_cap=None):
+        """ops creating an on-grid chart (or mapset) of `game`"""
+        from .gen_files import gen_timeline
+
+        exact = self.d.random() < 0.65 if exact is None else exact
+        nm = self.d.randint(1, 4 if self.tier == "quick" else 6)
+        tl = gen_timeline(self.d, nm, exact, t0)
+        if game == "sm":
+            n = self.d.choice([1, 1, 2, 3])
+            names, ops = [], []
+            for _ in range(n):
+                keys = self.d.choice([4, 4, 7, 6, 8, 3])
+                lists = self.grid_chart("sm", keys, tl, nm, exact, lcm_cap)
+                meta = gen_map_meta(self.d, "sm", keys)
+                nmh = self.new_h()
+                names.append(nmh)
+                ops.append(self.mk("map.new", game="sm", lists=lists, meta=meta, how="items", out=nmh, keys=keys))
+            sm = gen_set_meta(self.d, "sm")
+            sm["offset"] = float(tl[0][2])
+            ops.append(self.mk("mapset.new", game="sm", maps=names, meta=sm, out=self.new_h()))
+            return ops
+        if game == "o2j":
+            names, ops = [], []
+            for _ in range(3):
+                lists = self.grid_chart("o2j", 7, tl, nm, exact, lcm_cap)
+                nmh = self.new_h()
+                names.append(nmh)
+                ops.append(self.mk("map.new", game="o2j", lists=lists, meta={}, how="items", out=nmh, keys=7))
+            ops.append(self.mk("mapset.new", game="o2j", maps=names, meta=gen_set_meta(self.d, "o2j"), out=self.new_h()))
+            return ops
+        keys = {"osu": self.d.choice([4, 7, 3, 6, 8]), "qua": self.d.choice([4, 7, 8]), "bms": self.d.choice([4, 7, 8, 6])}[game]
+        lists = self.grid_chart(game, keys, tl, nm, exact, lcm_cap)
+        meta = gen_map_meta(self.d, game, keys)
+        return [self.mk("map.new", game=game, lists=lists, meta=meta, how="items", out=self.new_h(), keys=keys)]
+
+
+class GenC03(GridMixin, FileGen):
+    game = "sm"
+    reread_prop = "C03"
+    write_games = ("sm",)
+    read_games = ("sm",)
+    table = dict(sm_new=10, install_read=5, src_new=5, convert=8, write=12, reread=5, chain=6, rate=4, map_deepcopy=1)
+
+    def gen_doc(self, game):
+        from .gen_files import gen_sm_doc, gen_sm_fmt
+
+        return gen_sm_doc(self.d, 3), gen_sm_fmt(self.d, self.s.knobs)
+
+    def p_sm_new(self):
+        return self.grid_source("sm", t0=self.d.choice([0.0, 0.0, 100.0, -250.0, 1234.5]), lcm_cap=self.s.knobs.get("sm_lcm_cap"))
+
+    def p_src_new(self):
+        return self.grid_source(self.r.choice(["osu", "qua", "bms", "o2j"]), t0=0.0, lcm_cap=self.s.knobs.get("sm_lcm_cap"))
+
+    def p_rate(self):
+        h = self.pick("mapset", pred=lambda x: x.game == "sm" and self._rate_ok(x))
+        if not h:
+            return None
+        return self.mk("map.rate", h=h.name, r=self.r.choice([0.5, 0.75, 1.5, 2, 1.25, 1.1]), out=self.new_h())
+
+    def p_convert(self, conv=None):
+        hs = [h for h in self.w.h.values() if h.kind in ("map", "mapset") and h.game != "sm" and self._rate_ok(h) and not h.meta.get("converted")]
+        if not hs:
+            return None
+        h = self.r.choice(hs)
+        cands = [c for c, spec in CONVERTERS.items() if spec[0] == h.game and spec[1] == h.kind and spec[2] == "sm"]
+        if not cands:
+            return None
+        c = self.r.choice(cands)
+        spec = CONVERTERS[c]
+        n = 1 if spec[3] in ("map", "mapset", "mapset_merged") else len(h.obj.maps)
+        return self.mk("convert", conv=c, h=h.name, outs=[self.new_h() for _ in range(n)])
+
+
+SCENARIOS = {"C01": GenC01, "C02": GenC02, "C03": GenC03, "C06": GenC06, "C16": GenC16, "C14": GenC14, "C12": GenC12, "C08": GenC08, "C13": GenC13, "C15": GenC15}
